@@ -267,7 +267,7 @@ def ideal_out(s):
     return lat_parse(v[:17]), v[17]
 
 
-def spec_ideal(expect_lat, expect_norm, O, what, check_index=True):
+def spec_ideal(expect_lat, expect_norm, O, what, check_index=True, sign_free=False):
     """C output must be the canonical form of `expect_lat`, with stored norm `expect_norm` (= sqrt of the index)"""
     def f(cout):
         try:
@@ -277,7 +277,9 @@ def spec_ideal(expect_lat, expect_norm, O, what, check_index=True):
             return "%s: unusable output (%s)" % (what, e)
         if can != expect_lat:
             return "%s: returned lattice differs from the mathematically defined one" % what
-        if (raw[0], raw[1]) != (can[0], can[1]):
+        if sign_free and (abs(raw[0]), raw[1]) == (can[0], can[1]):
+            pass        # x with a negative denominator: quat_lattice_reduce_denom does not normalise the sign (C14 notes)
+        elif (raw[0], raw[1]) != (can[0], can[1]):
             return "%s: returned basis is not in Hermite normal form with reduced positive denominator" % what
         if expect_norm is not None and nrm != expect_norm:
             return "%s: stored norm %s, expected %s" % (what, hx(nrm), hx(expect_norm))
@@ -497,8 +499,36 @@ def build_cases(g, ctx):
         cases.append(Case("id.connect %s %s %s" % (P, hxs(lat_flat(Oa)), hxs(lat_flat(Ob))), "connect",
                           spec_connect(p, Q.canon(*Oa), Q.canon(*Ob)), dict(O1=g.orders[a][0], O2=g.orders[b][0], O1raw=Oa, O2raw=Ob)))
         ctx.case("L%d:connect:%s:%s" % (g.lvl, g.orders[a][0], g.orders[b][0]))
-    # ---- precondition-violation stream (the C code is still defined): model == C only
     Oname, Oraw = g.orders[0]
+    # ---- create_principal on general (x, O): the lattice O·x is defined for every x != 0 of the algebra, integral norm
+    # or not.  The basis mulmat(x)·O handed to quat_lattice_reduce_denom BEFORE the HNF is a full, non-triangular
+    # matrix; for x = (p·a + p·b·i + c·j + d·ij)/(p·e) its upper triangle is divisible by p and its lower one is not,
+    # so a content routine that looks at part of the matrix only returns a different lattice (which need not even
+    # contain x).  Spec: returned lattice == O·x exactly (stored norm not judged: it keeps its previous value when
+    # N(x) is not an integer).
+    IDL = (1, [[1 if i == j else 0 for j in range(4)] for i in range(4)])
+    gen_orders = [("Z<1,i,j,ij>", IDL), (Oname, Oraw)] + ([g.orders[1]] if norders > 1 else [])
+    for k in range(12 if quick else 90):
+        on, Orw = gen_orders[k % len(gen_orders)]
+        Oc = Q.canon(*Orw)
+        nzs = lambda: rng.choice([1, -1]) * (1 + rng.below(40))
+        if k == 0:
+            x, xc = (p, [p, 2 * p, 1, 2]), "witness(p+2p.i+j+2.ij)/p"
+        elif k % 4 == 3:
+            q = rng.choice([2, 3, 5, 7, 2**32])
+            x, xc = (q * rng.choice([1, -1, 2]), [q * nzs(), q * g.sint(6), nzs(), nzs()]), "q-multiple-re-i"
+        elif k % 4 == 2:
+            x, xc = (rng.choice([2, 3, -5, 12, p]), [g.sint(8), g.sint(8), nzs(), g.sint(8)]), "generic-denominator"
+        else:
+            e = rng.choice([1, 1, -1, 2, 3])
+            x, xc = (p * e, [p * nzs(), p * g.sint(6), nzs(), nzs()]), "p-multiple-re-i"
+        Ip = Q.mul_right(p, Oc, elem_val(x))
+        g.count("principal_general", xc + "@" + on)
+        cases.append(Case("id.principal %s %s %s" % (P, hxs(elem_flat(x)), hxs(lat_flat(Orw))), "principal_general",
+                          spec_ideal(Ip, None, Oc, "create_principal", check_index=False, sign_free=True),
+                          dict(order=on, x=x, x_class=xc, Oraw=Orw)))
+        ctx.case("L%d:principal_general:%s:%s:%d" % (g.lvl, on, xc, k))
+    # ---- precondition-violation stream (the C code is still defined): model == C only
     OL = hxs(lat_flat(Oraw))
     O = Q.canon(*Oraw)
     for k in range(6 if quick else 30):
@@ -730,7 +760,7 @@ def run_level(ctx, lvl, exe, quick, cov):
     cases = build_cases(g, ctx)
     byname = dict(orders)
     for c in cases:
-        if "order" in c.meta:
+        if "order" in c.meta and "Oraw" not in c.meta:
             c.meta["Oraw"] = byname[c.meta["order"]]
     res["t_gen"] = time.time() - t0
     lines = [c.line for c in cases]
